@@ -12,7 +12,13 @@ model's `get` / `seekObs`; writes touch the node itself, flushes the node and it
   cs <id> (<key> <val|nil>)*                -> ok | panic        PutChangeSet, keys placed by chooseMap
   get <id> <key>                            -> v <hex> | nf
   seek|seeka <id> <pfx> <start> <bw> <depth> <cut> <lim>  -> <n> k:v ...
-  dseek|dseeka|find <id> <sp> <cid> <pfx> <start> <bw> <depth> <lim>  -> <n> k:v ...   (dao: prefix = sp‖le32(cid)‖pfx, cut)
+  dseek|dseeka <id> <sp> <cid> <pfx> <start> <bw> <depth> <lim>  -> <n> k:v ...   dao.Seek / dao.SeekAsync of contract <cid>
+                                                     (an int32, may be negative) under storage prefix byte <sp>
+  find <id> <sp> <cid> <pfx> <opts> <lim>   -> err | <n> k:v ...   System.Storage.Find; `_` = part not delivered
+  seekb <id> <hold> <pfx> <start> <bw> <cut> <lim> -> ok          a Seek/SeekAsync of store <id> takes its snapshots down
+                                                     to store <hold> and stops before scanning <hold>'s lower store
+  seeke                                     -> <n> k:v ...      … which is scanned now (everything in between happened
+                                                     inside the scan's window)
   gc <id> <pfx> <start> <bw> <lim> <mod>    -> <n> k:v ...      keep k iff (Σ bytes + len) % mod ≠ 0 (mod 0: keep all)
   persist|persistsync <id>                  -> <n>
   pbegin <id> <tmp>                         -> <n>               step 1 of persist, `tmp` = number of tempstore
@@ -23,6 +29,9 @@ model's `get` / `seekObs`; writes touch the node itself, flushes the node and it
 -/
 import NeoModel.Base.Proto
 import NeoModel.Model.Store
+import NeoModel.Model.Store.Dao
+import NeoModel.Model.Store.Window
+import NeoModel.Model.Store.GC
 open NeoModel NeoModel.Store
 
 inductive HNode where
@@ -64,9 +73,6 @@ def parseCS : List String → Option (List KVE)
     let r ← parseCS rest
     pure ((kb, vb) :: r)
 
-def le32 (n : Nat) : Bytes :=
-  [UInt8.ofNat (n % 256), UInt8.ofNat (n / 256 % 256), UInt8.ofNat (n / 65536 % 256), UInt8.ofNat (n / 16777216 % 256)]
-
 def keepFn (md : Nat) (k : Key) : Bool :=
   md == 0 || ((k.foldl (fun a b => a + b.toNat) 0) + k.length) % md != 0
 
@@ -79,16 +85,36 @@ def doSeek (h : Heap) (id pfx start bw depth cut lim : String) : Option String :
   let rng : SeekRange := { pfx := p, start := s, bw := parseBool bw, depth := d }
   pure (showKVs ((h.viewOf i).seekObs rng (parseBool cut) l))
 
-def doDaoSeek (h : Heap) (id sp cid pfx start bw depth lim : String) : Option String := do
+def doDaoSeek (h : Heap) (async : Bool) (id sp cid pfx start bw depth lim : String) : Option String := do
   let p ← Hex.decode pfx
   let spb ← Hex.decode sp
-  let c ← cid.toNat?
+  let spByte ← spb.head?
+  let c ← cid.toInt?
   let s ← Hex.decode start
   let d ← depth.toNat?
   let l ← lim.toNat?
   let i ← id.toNat?
-  let rng : SeekRange := { pfx := spb ++ le32 c ++ p, start := s, bw := parseBool bw, depth := d }
-  pure (showKVs ((h.viewOf i).seekObs rng true l))
+  let rng : SeekRange := { pfx := p, start := s, bw := parseBool bw, depth := d }
+  pure (showKVs (if async then daoSeekAsync (h.viewOf i) spByte c rng l else daoSeek (h.viewOf i) spByte c rng l))
+
+def showPart : Option Bytes → String
+  | some b => Hex.encode b
+  | none => "_"
+
+def showItems (l : List FindItem) : String :=
+  l.foldl (fun acc e => acc ++ " " ++ showPart e.key ++ ":" ++ showPart e.val) (toString l.length)
+
+def doFind (h : Heap) (id sp cid pfx opts lim : String) : Option String := do
+  let p ← Hex.decode pfx
+  let spb ← Hex.decode sp
+  let spByte ← spb.head?
+  let c ← cid.toInt?
+  let o ← opts.toNat?
+  let l ← lim.toNat?
+  let i ← id.toNat?
+  match find (h.viewOf i) spByte c p o l with
+  | some items => pure (showItems items)
+  | none => pure "err"
 
 def writeNode (h : Heap) (i : Nat) (f : Layer → Layer) : Heap × String :=
   match h.find i with
@@ -142,16 +168,24 @@ def step (h : Heap) (ws : List String) : Heap × String :=
       | none => (h, "bad-op")
     else (h, "bad-op")
   | [op, id, sp, cid, pfx, start, bw, depth, lim] =>
-    if op == "dseek" || op == "dseeka" || op == "find" then
-      match doDaoSeek h id sp cid pfx start bw depth lim with
+    if op == "dseek" || op == "dseeka" then
+      match doDaoSeek h (op == "dseeka") id sp cid pfx start bw depth lim with
       | some r => (h, r)
       | none => (h, "bad-op")
     else (h, "bad-op")
+  | ["find", id, sp, cid, pfx, opts, lim] =>
+    match doFind h id sp cid pfx opts lim with
+    | some r => (h, r)
+    | none => (h, "bad-op")
   | ["gc", id, pfx, start, bw, lim, md] =>
     match id.toNat?, Hex.decode pfx, Hex.decode start, lim.toNat?, md.toNat? with
     | some i, some p, some s, some l, some m =>
       let rng : SeekRange := { pfx := p, start := s, bw := parseBool bw, depth := 0 }
       match h.find i with
+      | some (.base (.bolt db)) =>
+        -- BoltDB: the cursor-level loop (delete under the cursor, move on in the shrunken bucket)
+        let (vis, db') := boltSeekGC db rng (keepFn m) l
+        (h.set i (.base (.bolt db')), showKVs vis)
       | some (.base st) =>
         let (vis, st') := st.seekGC rng (keepFn m) l
         (h.set i (.base st'), showKVs vis)
@@ -237,4 +271,75 @@ def step (h : Heap) (ws : List String) : Heap × String :=
     | none => (h, "bad-op")
   | _ => (h, "bad-op")
 
-def main : IO Unit := Proto.run ([] : Heap) step
+/-! ### a scan in two critical sections -/
+
+/-- the scan that has taken its snapshots and waits before the lower scan. -/
+structure Pending where
+  id : Nat
+  hold : Nat
+  layers : List Layer   -- the snapshotted cache layers, top first (store `id` … store `hold`)
+  psId : Nat            -- the `ps` pointer read together with the last snapshot
+  s0 : Store            -- the whole view of store `id` at that moment
+  rng : SeekRange
+  cut : Bool
+  lim : Nat
+
+structure St where
+  h : Heap := []
+  temps : List Nat := []          -- tempstores created by `pbegin`
+  pend : Option Pending := none
+
+/-- the layers from store `id` down to store `hold`, and `hold`'s `ps` pointer. -/
+def Heap.pathTo (h : Heap) (hold : Nat) : Nat → Nat → Option (List Layer × Nat)
+  | 0, _ => none
+  | fuel + 1, id =>
+    match h.find id with
+    | some (.cached L ps) =>
+      if id == hold then some ([L], ps)
+      else (h.pathTo hold fuel ps).map (fun r => (L :: r.1, r.2))
+    | _ => none
+
+/-- the chain below `id` consists of tempstores and then a backend (the production shape): the
+`Store.seekSplit` of the model applies. -/
+def Heap.tempsThenBase (h : Heap) (temps : List Nat) : Nat → Nat → Bool
+  | 0, _ => false
+  | fuel + 1, id =>
+    match h.find id with
+    | some (.base _) => true
+    | some (.cached _ ps) => temps.contains id && h.tempsThenBase temps fuel ps
+    | none => false
+
+def stepSt (st : St) (ws : List String) : St × String :=
+  match ws with
+  | ["case", k] => ({}, s!"case {k}")
+  | ["seekb", id, hold, pfx, start, bw, cut, lim] =>
+    match id.toNat?, hold.toNat?, Hex.decode pfx, Hex.decode start, lim.toNat? with
+    | some i, some hd, some p, some s, some l =>
+      match st.h.pathTo hd (st.h.length + 1) i with
+      | some (layers, psId) =>
+        let rng : SeekRange := { pfx := p, start := s, bw := parseBool bw, depth := 0 }
+        ({ st with pend := some { id := i, hold := hd, layers := layers, psId := psId, s0 := st.h.viewOf i,
+                                  rng := rng, cut := parseBool cut, lim := l } }, "ok")
+      | none => (st, "bad-op")
+    | _, _, _, _, _ => (st, "bad-op")
+  | ["seeke"] =>
+    match st.pend with
+    | none => (st, "bad-op")
+    | some pd =>
+      -- pointer-faithful: the snapshots over the captured lower store as it is NOW
+      let view := Store.under pd.layers (st.h.viewOf pd.psId)
+      let res := showKVs (view.seekObs pd.rng pd.cut pd.lim)
+      -- the model's two-section scan (`Store.seekSplit`, the subject of the window theorems) is
+      -- this computation whenever the captured chain is tempstores over the backend
+      let alt := showKVs (pd.s0.seekSplit (st.h.viewOf pd.id) pd.rng pd.cut pd.lim)
+      let applies := pd.id == pd.hold && st.h.tempsThenBase st.temps (st.h.length + 1) pd.psId
+      ({ st with pend := none }, if applies && alt != res then res ++ " SPLIT-MODEL-DIFFERS " ++ alt else res)
+  | ["pbegin", _, tmp] =>
+    let (h', out) := step st.h ws
+    let temps := match tmp.toNat? with | some t => if out == "0" then st.temps else t :: st.temps | none => st.temps
+    ({ st with h := h', temps := temps }, out)
+  | _ =>
+    let (h', out) := step st.h ws
+    ({ st with h := h' }, out)
+
+def main : IO Unit := Proto.run ({} : St) stepSt
